@@ -182,6 +182,18 @@ CLAIMED = {
              "register offsets are not exercised.",
         technique="Coq proof about byte-level load/store/guard composition + execution of real generated XDP code in a kernel-validated ISA model",
         ref="7/C07"),
+    "C06": dict(
+        text="Theorem C06_no_lost_update: for ANY number of instances, ANY instruction counts and ANY interleaving of their instructions (induction over the "
+             "interleaving relation), the shared cell ends up changed by exactly the sum of all amounts modulo its width, provided every instruction either "
+             "leaves the cell alone or is the atomic add; C06_isa_xadd_atomic: the ISA's XADD is ONE step adding the source register to the cell; "
+             "C06_rmw_refuted: a load/add/store lowering loses an update (machine-checked witness). Tie: 2-3 instances of the REAL generated statement for "
+             "every 4/8-byte format, += and -=, constant / register / expression amounts run on a shared map in the kernel-validated Coq ISA model, one "
+             "instruction at a time under round-robin, sequential, adversarial and random schedules; the final value must equal the model's and the exact "
+             "sum, neighbouring bytes must be untouched.",
+        note=TB + "Partial: the abstraction of the generated code to Priv/Add events is validated by the sampled executions, not proved; sequentially "
+             "consistent instruction interleaving is assumed (the atomicity of BPF_XADD itself is the kernel's / hardware's guarantee); hash-map values are not exercised.",
+        technique="Coq proof over all interleavings + multi-instance execution of real generated code in a kernel-validated ISA model",
+        ref="7/C06"),
 }
 
 REASONS_NOT_YET = "no check built yet in this round (planned, see DESIGN.md section 7); nothing is claimed for it"
